@@ -90,6 +90,9 @@ func main() {
 	delegOther := w.Int.Issue(pki.CertOpts{CN: "C05 delegated client-auth eku", ExtKeyUsage: []x509.ExtKeyUsage{x509.ExtKeyUsageClientAuth}})
 	delegOfSibling := sibling.Issue(pki.CertOpts{CN: "C05 delegate of sibling", ExtKeyUsage: []x509.ExtKeyUsage{x509.ExtKeyUsageOCSPSigning}})
 	delegOfRoot := w.Root.Issue(pki.CertOpts{CN: "C05 delegate of root", ExtKeyUsage: []x509.ExtKeyUsage{x509.ExtKeyUsageOCSPSigning}})
+	// a self-signed stranger that copies the issuer's subject name and subject key identifier
+	imitator := pki.NewRoot(pki.CertOpts{RawSubject: w.Int.Cert.RawSubject, SKI: w.Int.Cert.SubjectKeyId})
+	imitatorEKU := pki.NewRoot(pki.CertOpts{RawSubject: w.Int.Cert.RawSubject, SKI: w.Int.Cert.SubjectKeyId, ExtKeyUsage: []x509.ExtKeyUsage{x509.ExtKeyUsageOCSPSigning}})
 	signers := []signer{
 		{"issuer", w.Int.Cert, w.Int.Key, false, true},
 		{"delegated+OCSPSigning", delegEKU.Cert, delegEKU.Key, true, true},
@@ -102,6 +105,9 @@ func main() {
 		{"delegate-of-sibling", delegOfSibling.Cert, delegOfSibling.Key, true, false},
 		{"delegate-of-root", delegOfRoot.Cert, delegOfRoot.Key, true, false},
 		{"client-own-certificate", nil, nil, true, false},
+		{"stranger-imitating-issuer-name-and-keyid-embedded", imitator.Cert, imitator.Key, true, false},
+		{"stranger-imitating-issuer-name-and-keyid", imitator.Cert, imitator.Key, false, false},
+		{"stranger-imitating-issuer-with-ocspsigning-embedded", imitatorEKU.Cert, imitatorEKU.Key, true, false},
 	}
 	statuses := map[string]int{"good": ocsp.Good, "revoked": ocsp.Revoked, "unknown": ocsp.Unknown}
 
